@@ -112,6 +112,7 @@ func runC02(c *Ctx) {
 		{"N2.F2", mixed, vrt.Budget{F: 2}, cut},
 		{"one.F2.P1", one[:1], vrt.Budget{F: 2, P: 1, Total: 3}, cut},
 		{"manual.one.F2", one, vrt.Budget{F: 2}, cutw},
+		{"eofwrite.one.F2", one, vrt.Budget{F: 2}, env.FaultSet{WriteErr: true, AckLost: true}},
 		{"timeout.one.F2", one, vrt.Budget{F: 2}, env.FaultSet{Silent: true, SilentDrop: true, LostClose: true, OnlyTypes: map[byte]bool{env.PUBLISH: true, env.PUBREL: true}}},
 	}
 	if c.Thorough() { // after the quick families
@@ -142,7 +143,7 @@ func runC02(c *Ctx) {
 						Bound: f.bound,
 						Cfg:   vrt.Config{Horizon: int64(600 * time.Second)},
 						Body: func() {
-							rcExecuteInto(&rcCfg{Reqs: reqs, Faults: f.faults, KeepSession: true, MethodB: mb, AlwaysResub: always, Manual: strings.HasPrefix(f.name, "manual."), RespTimeout: c02RespTimeout(f.name)}, &run)
+							rcExecuteInto(&rcCfg{Reqs: reqs, Faults: f.faults, KeepSession: true, MethodB: mb, AlwaysResub: always, Manual: strings.HasPrefix(f.name, "manual."), RespTimeout: c02RespTimeout(f.name), EOFWriteErrors: strings.HasPrefix(f.name, "eofwrite.")}, &run)
 							c02Oracle(run)
 						},
 						Observe: func() uint64 { return run.net.TraceHash() },
